@@ -1,8 +1,8 @@
 """C07  Unreadable shards surface as errors: never a hang, never silent
 truncation.
 
-Finite product (quick: a stratified grid covering every (format, interface,
-damage, shuffle, repeat) combination once plus Hypothesis-sampled cells;
+Finite product (quick: a stratified grid covering every (format, compression,
+interface, damage, shuffle) combination once plus Hypothesis-sampled cells;
 thorough: the whole matrix enumerated):
 format x compression x dataset (2..6 shards) x damaged shard (first, middle,
 last) x damage (deleted; emptied; garbage not starting with the codec's magic;
@@ -101,35 +101,25 @@ def enumerate_matrix(tier):
 
 
 def enumerate_grid(tier):
-    """Quick tier: every (format, interface, damage, shuffle, repeat) cell once
-    (stratified -- no cell of that projection is left to chance); compression,
-    position, shard count and parallelism are derived from VERIF_SEED and the
-    cell index."""
+    """Quick tier: every (format, compression, interface, damage, shuffle)
+    cell once (stratified -- no cell of that projection is left to chance: a
+    decoder reports damage in its own way, e.g. lz4 raises RuntimeError, bz2
+    OSError, zlib zlib.error); repeat, position, shard count and parallelism
+    are derived from VERIF_SEED and the cell index."""
     import hashlib
     seed = os.environ.get("VERIF_SEED", "1")
     cells = []
     for fmt in ("fb", "npz", "tfrec"):
-        n_if = max(len(_ifaces(fmt, ci))
-                   for ci in range(len(dsops.COMPRESSIONS[fmt])))
-        for iface in range(n_if):
-            for damage in DAMAGES:
-                if damage in ("tiny", "allff") and fmt != "fb":
-                    continue
-                for shuffle in (0, 3):
-                    for repeat in (False, True):
+        for ci in range(len(dsops.COMPRESSIONS[fmt])):
+            for iface in range(len(_ifaces(fmt, ci))):
+                for damage in DAMAGES:
+                    if damage in ("tiny", "allff") and (fmt != "fb" or ci):
+                        continue
+                    for shuffle in (0, 3):
                         h = int.from_bytes(
                             hashlib.sha1(
-                                f"{seed}|{fmt}|{iface}|{damage}|{shuffle}|"
-                                f"{repeat}".encode()).digest()[:6], "big")
-                        ci = h % len(dsops.COMPRESSIONS[fmt])
-                        if damage in ("tiny", "allff"):
-                            ci = 0
-                        ifs = _ifaces(fmt, ci)
-                        if iface >= len(ifs):
-                            # e.g. the native reader does not support this
-                            # codec: take one it supports
-                            ci = 0
-                            ifs = _ifaces(fmt, ci)
+                                f"{seed}|{fmt}|{ci}|{iface}|{damage}|"
+                                f"{shuffle}".encode()).digest()[:6], "big")
                         cells.append({
                             "fmt": fmt,
                             "comp": ci,
@@ -141,7 +131,7 @@ def enumerate_grid(tier):
                             "iface": iface,
                             "shuffle": shuffle,
                             "fp": ["1", "2", "S", "S+2"][(h >> 28) % 4],
-                            "repeat": repeat,
+                            "repeat": bool((h >> 32) % 3 == 0),
                             "exact_iface": True,
                         })
     return cells
@@ -355,7 +345,7 @@ STAGES = [
           run=run_case,
           strategy=strategy,
           examples={
-              "quick": 700,
+              "quick": 450,
               "thorough": 4000
           },
           fork=True,
